@@ -3,7 +3,7 @@
    transport bytes on every run; hdr_size / eom_bit come from the code (Gen/GenC01.v). *)
 From Coq Require Import ZArith List Bool.
 Import ListNotations.
-From V Require Import Base.Tree Base.Bytes C15.Model C01.Model C01.Spec C01.Proofs C01.ProofsIntr.
+From V Require Import Base.Tree Base.Bytes C15.Model C15.Spec C01.Model C01.Spec C01.Proofs C01.ProofsIntr.
 Open Scope Z_scope.
 
 (* One message: for EVERY packet size 9..65535, every channel id, every list of packages written in
@@ -81,9 +81,54 @@ Example C01_interrupted_example :
   end.
 Proof. vm_compute. repeat split; reflexivity. Qed.
 
+(* The interrupted flush: SendRemainingPackets under every budget, from every reachable non-empty state, empties
+   the queue (deferred reset); if it reports an error, what it wrote is a proper prefix of the packetisation of the
+   queued bytes (complete packets without EOM, at least one byte unsent) - the message is abandoned; if it reports
+   none, it did exactly what the live flush does. *)
+Theorem C01_interrupted_flush : forall ps chan typ st b, 9 <= ps <= 65535 -> 0 <= chan < 65536 ->
+  msg_qi ps (tq st) -> pkts (tq st) <> [] ->
+  exists o st' e, send_remaining_b ps chan typ st b = Some (o, st', e) /\ tq st' = empty_pq /\
+    (if e then tx_prefix_ok ps typ chan (tnr st) (before (tq st)) o = true /\
+               tnr st' = steps chan (tnr st) (length o)
+     else send_remaining ps chan typ st = Some (o, st')).
+Proof. exact interrupted_flush. Qed.
+
+(* Every history: segments (packet size and header type per segment) of QueuePackage / SendPackage /
+   SendRemainingPackets calls with ANY budgets, each segment ending with a call that closes the message (a flush, or
+   SendPackage with a live context): the model runs, and its observations (writes, error flag, packets-stay-queued
+   per call) satisfy the executable specification of fn 2 (segments_ok): every completed message well-formed on
+   exactly the packages queued since the previous message end, failed QueuePackage calls included; writes always a
+   proper prefix before that; abandoned messages leave nothing behind; live contexts never fail; packet numbers
+   continue. *)
+Theorem C01_interrupted_history : forall chan nr0 gs, 0 <= chan < 65536 -> 0 <= nr0 < 256 -> Forall seg_wf gs ->
+  exists outs st', run_segments chan gs {| tq := empty_pq; tnr := nr0 |} = Some (outs, st') /\
+    segments_ok chan gs outs {| a_w := []; a_p := []; a_nr := nr0 |} = true.
+Proof.
+  intros chan nr0 gs Hc Hnr Hwf.
+  exact (segments_model chan Hc gs {| a_w := []; a_p := []; a_nr := nr0 |} {| tq := empty_pq; tnr := nr0 |} Hwf
+           eq_refl eq_refl eq_refl Hnr (fun _ => eq_refl)).
+Qed.
+
+(* non-vacuity: 9 bytes queued with a context that dies after one packet (error), the flush with one that dies
+   after one more packet (error, message abandoned), then a one-byte message *)
+Example C01_interrupted_history_example :
+  let g := {| g_ps := 12; g_typ := 3; g_calls := [CQueue [[1; 2; 3; 4; 5; 6; 7; 8; 9]] (Some 1%nat); CFlush (Some 1%nat);
+                                                   CQueue [[7]] None; CFlush None] |} in
+  seg_wf g /\
+  match run_segments 1 [g] {| tq := empty_pq; tnr := 255 |} with
+  | Some (outs, st') =>
+      outs = [[([[3; 0; 0; 12; 0; 1; 255; 0; 1; 2; 3; 4]], true, true); ([[3; 0; 0; 12; 0; 1; 0; 0; 5; 6; 7; 8]], true, false);
+               ([], false, true); ([[3; 1; 0; 9; 0; 1; 1; 0; 7]], false, false)]] /\
+      segments_ok 1 [g] outs {| a_w := []; a_p := []; a_nr := 255 |} = true
+  | None => False
+  end.
+Proof. vm_compute. split; [split; [split; discriminate|reflexivity]|split; reflexivity]. Qed.
+
 Print Assumptions C01_message.
 Print Assumptions C01_history.
 Print Assumptions C01_interrupted_states.
 Print Assumptions C01_interrupted_queue.
 Print Assumptions C01_interrupted_message.
 Print Assumptions C01_live_budget.
+Print Assumptions C01_interrupted_flush.
+Print Assumptions C01_interrupted_history.
